@@ -589,7 +589,7 @@ class Lexer:
             command = command.copy()
             # Clear paths
             for index, token in enumerate(command[4::2]):
-                if token.string == "/" and len(command) > index + 1:
+                if token.string == "/" and len(command) > index + 2:
                     del command[index]
                     del command[index + 1]
 
